@@ -230,6 +230,7 @@ func (n *networkTopology) replicaMap(tokenRing *tokenRing) tokenRingReplicas {
 		}
 
 		replicas := make([]*HostInfo, 0, totalRF)
+		seen := make(map[*HostInfo]bool, totalRF)
 		for j := 0; j < len(tokens) && (len(replicas) < totalRF && !n.haveRF(replicasInDC)); j++ {
 			// TODO: ensure we dont add the same host twice
 			p := i + j
@@ -237,6 +238,10 @@ func (n *networkTopology) replicaMap(tokenRing *tokenRing) tokenRingReplicas {
 				p -= len(tokens)
 			}
 			h := tokens[p].host
+			if seen[h] {
+				// another token of a node that is a replica already
+				continue
+			}
 
 			dc := h.DataCenter()
 			rack := h.Rack()
@@ -261,6 +266,7 @@ func (n *networkTopology) replicaMap(tokenRing *tokenRing) tokenRingReplicas {
 			if _, ok := racks[rack]; ok && len(racks) == len(dcRacks[dc]) {
 				// we have been through all the racks and dont have RF yet, add this
 				replicas = append(replicas, h)
+				seen[h] = true
 				replicasInDC[dc]++
 			} else if !ok {
 				if racks == nil {
@@ -271,6 +277,7 @@ func (n *networkTopology) replicaMap(tokenRing *tokenRing) tokenRingReplicas {
 				// new rack
 				racks[rack] = struct{}{}
 				replicas = append(replicas, h)
+				seen[h] = true
 				r := replicasInDC[dc] + 1
 
 				if len(racks) == len(dcRacks[dc]) {
@@ -279,11 +286,15 @@ func (n *networkTopology) replicaMap(tokenRing *tokenRing) tokenRingReplicas {
 					// above
 					skippedHosts := skipped[dc]
 					var k int
-					for ; k < len(skippedHosts) && r+k < rf; k++ {
+					for ; k < len(skippedHosts) && r < rf; k++ {
 						sh := skippedHosts[k]
+						if seen[sh] {
+							continue
+						}
 						replicas = append(replicas, sh)
+						seen[sh] = true
+						r++
 					}
-					r += k
 					skipped[dc] = skippedHosts[k:]
 				}
 				replicasInDC[dc] = r
